@@ -12,6 +12,7 @@ import (
 	"sort"
 	"strings"
 	"sync"
+	"sync/atomic"
 	"testing"
 
 	"pgregory.net/rapid"
@@ -49,7 +50,13 @@ var c05Snippets = []string{
 	"  seen: {{ .Values.m.z | default \"none\" | quote }}",
 	"{{- $_ := set .Values.m \"z\" \"%s\" }}\n  set: done",
 	"  globals: {{ .Values.global | toJson | quote }}",
+	// in-place change of a table that sits inside a default LIST (lists are replaced whole when values are coalesced,
+	// so only a deep copy keeps the chart's own defaults out of reach)
+	"{{- $p := index .Values.ports 0 }}{{- $_ := set $p \"name\" (printf \"web-%s\" $p.name) }}\n  port: {{ $p.name | quote }}",
 }
+
+// c05Fresh numbers the file patterns used by the concurrent "other" renders of this process.
+var c05Fresh atomic.Int64
 
 type c05File struct {
 	Name string `json:"name"`
@@ -142,7 +149,8 @@ func (c *c05Chart) build(perm func(n int) []int) *chart.Chart {
 	for _, i := range order(len(ks)) {
 		m[ks[i]] = fmt.Sprint(i*0 + strings.Index("abcde", ks[i]) + 1)
 	}
-	ch.Values = map[string]interface{}{"s": "sv", "m": m, "global": map[string]interface{}{"g": "gv"}}
+	ch.Values = map[string]interface{}{"s": "sv", "m": m, "global": map[string]interface{}{"g": "gv"},
+		"ports": []interface{}{map[string]interface{}{"name": "http", "port": float64(80)}}}
 	for _, i := range order(len(c.Deps)) {
 		ch.AddDependency(c.Deps[i].build(perm))
 	}
@@ -154,6 +162,11 @@ type c05Out struct {
 }
 
 func c05Render(c c05ACase, perm func(n int) []int) c05Out {
+	return c05RenderChart(c, c.Root.build(perm))
+}
+
+// c05RenderChart renders the given chart object (which the caller may render again) under the case's release options.
+func c05RenderChart(c c05ACase, ch *chart.Chart) c05Out {
 	in := action.NewInstall(&action.Configuration{})
 	in.ClientOnly, in.DryRun, in.ReleaseName, in.Namespace, in.SubNotes = true, true, "r", "default", c.SubNotes
 	in.APIVersions = chartutil.VersionSet(append([]string(nil), c.APIVersions...))
@@ -164,7 +177,7 @@ func c05Render(c c05ACase, perm func(n int) []int) c05Out {
 		}
 		in.KubeVersion = kv
 	}
-	rel, err := in.Run(c.Root.build(perm), map[string]interface{}{})
+	rel, err := in.Run(ch, map[string]interface{}{})
 	if err != nil {
 		return c05Out{Err: err.Error()}
 	}
@@ -205,6 +218,14 @@ func c05JudgeA(tb vt.TB, c c05ACase, permSeeds [][]int) {
 			return
 		}
 	}
+	// (1b) the same loaded chart OBJECT rendered three times (as an SDK user or a long-running process does)
+	same := c.Root.build(nil)
+	for i := 0; i < 3; i++ {
+		if o := c05RenderChart(c, same); c05Diff(base, o) != "" {
+			fail("C05:A/repeated-render-of-the-same-chart-object-differs/"+c05Diff(base, o)+ctx, c05Diff(base, o), o)
+			return
+		}
+	}
 	// (2) permutation of load order
 	for _, seed := range permSeeds {
 		perm := func(n int) []int {
@@ -239,10 +260,15 @@ func c05JudgeA(tb vt.TB, c c05ACase, permSeeds [][]int) {
 			defer wg.Done()
 			outs[i] = c05Render(c, nil)
 		}(i)
-		go func() {
+		go func(i int) {
 			defer wg.Done()
-			c05Render(other, nil)
-		}()
+			// ... each with a file pattern of its own that nothing in this process has used before
+			ch := other.Root.build(nil)
+			n := c05Fresh.Add(1)
+			pat := fmt.Sprintf("files/f[1-%d].t[x%c]t*", 1+i%3, 'a'+rune(n%26)) + strings.Repeat("*", int(n/26)%5)
+			ch.Templates = append(ch.Templates, &chart.File{Name: "templates/zz-other.yaml", Data: []byte("apiVersion: v1\nkind: ConfigMap\nmetadata:\n  name: zz\ndata:\n  n: \"{{ (.Files.Glob \"" + pat + "\") | len }}\"\n")})
+			c05RenderChart(other, ch)
+		}(i)
 	}
 	wg.Wait()
 	for _, o := range outs {
